@@ -31,7 +31,7 @@ func init() {
 		id := id
 		register(id, []string{"./..."}, func(p *Prog, r *Report) {
 			t := flowTexts[id]
-			r.Engines = []string{"flow(FLOW-SOME,FLOW-REF,FLOW-PARAM,FLOW-FN,OPT-RELAX)", "hashrules(HASH-KILL)"}
+			r.Engines = []string{"flow(FLOW-SOME,FLOW-REF,FLOW-PARAM,FLOW-FN,OPT-RELAX,COPY-NOOP)", "hashrules(HASH-KILL)"}
 			r.Explanation = "Static value-flow analysis (compositional per-function summaries over SSA, field-based heap for gadget state) of " + t[0] + ". Decided: " + t[1] + ". FLOW-SOME is intrinsic (a free wire must reach some sink, itself or at every same-package call site it is handed to); FLOW-REF / FLOW-PARAM compare with the reviewed table rules/flow.json and demand a superset (sink kind, raw/derived strength, number of call-site-sensitive sink sites). HASH-KILL (typestate): data written to a hasher of these packages reaches a Sum of the same hasher without an intervening Reset. NOT decided: " + t[2] + "."
 			r.RuleText = "one obligation per hint-output / internal-wire source (and per same-package call site receiving an escaping one); nontrivial = at least one sink reached"
 			r.Assumptions = []string{"may-analysis: over-approximated flows can only hide a missing constraint, never raise a false alarm", "call graph: static callees + CHA on gnark-declared interfaces; frontend.API methods are primitives (sinks or arithmetic)", "hint inputs do not flow to hint outputs (outputs are unconstrained until asserted)"}
@@ -41,6 +41,7 @@ func init() {
 			RunFlow(p, r, e, id, pkgScope(flowAreas[id]...), min)
 			RunHashKill(p, r, pkgScope(flowAreas[id]...))
 			RunRelax(p, r, id, pkgScope(flowAreas[id]...))
+			RunCopyNoop(p, r, pkgScope(flowAreas[id]...))
 			if id == "C12" {
 				r.Engines = append(r.Engines, "emuwidth(EMU-WIDTH,EMU-FLAG)")
 				r.Explanation += " EMU-WIDTH (intrinsic): every group of limbs that std/math/emulated slices out of a hint result is itself (not merely a value computed from it) range-checked or asserted boolean, in the function or at every same-package call site the group is returned to; unconstrained limb groups are arbitrary native field elements, for which the random-point polynomial identity holds only modulo the native field. EMU-FLAG (intrinsic): the trust flag Element.modReduced is only ever set to false, copied, or set behind a dominating AssertIsLessOrEqual on the same element."
